@@ -200,6 +200,10 @@ pub struct Case {
     pub poll: u32,
     /// allows Pad against the (large) default caps
     pub big: bool,
+    /// how the builder calls are laid out: 0 = straight-line script; 1 = one call per iteration of
+    /// a counter loop (frame resets between the calls); 2 = the same loop inside a function that
+    /// receives the builders as parameters and runs them there
+    pub shape: u8,
 }
 
 fn txt_json(t: &Txt) -> J {
@@ -293,7 +297,7 @@ impl Case {
             })
             .collect();
         json!({"prog": self.prog, "allow": self.allow, "big": self.big, "poll": self.poll,
-               "caps": caps, "cap_names": CAP_NAMES, "ops": ops})
+               "caps": caps, "cap_names": CAP_NAMES, "ops": ops, "shape": self.shape})
     }
 
     pub fn from_json(j: &J) -> Option<Case> {
@@ -378,6 +382,7 @@ impl Case {
             caps,
             poll: j.get("poll").and_then(J::as_u64).unwrap_or(1) as u32,
             big: j.get("big").and_then(J::as_bool).unwrap_or(false),
+            shape: j.get("shape").and_then(J::as_u64).unwrap_or(0) as u8,
         })
     }
 
@@ -845,37 +850,63 @@ fn materialise(case: &Case, place: &Place) -> Mat {
     // keep the host configuration self-consistent
     caps.default_timeout_ms = caps.default_timeout_ms.min(caps.max_timeout_ms).max(1);
 
-    // source text
-    let mut src = String::new();
-    src.push_str(&format!("make a get command({})\n", ns_string_expr(&program)));
+    // source text: one piece per step
+    let mut pieces: Vec<String> = Vec::new();
     let mut run_no = 0;
+    let wrapped = case.shape % 3 != 0;
     for s in &steps {
-        match s {
-            Step::Arg { t, expr, .. } => src.push_str(&format!("{}.arg({expr})\n", VARS[*t])),
-            Step::Env { t, key, expr, .. } => {
-                src.push_str(&format!("{}.env({}, {expr})\n", VARS[*t], ns_string_expr(key)));
-            }
-            Step::Cwd { t, path } => {
-                src.push_str(&format!("{}.cwd({})\n", VARS[*t], ns_string_expr(path)));
-            }
-            Step::StdinText { t, expr, .. } => {
-                src.push_str(&format!("{}.stdin_text({expr})\n", VARS[*t]));
-            }
-            Step::StdinOther { t, call } | Step::Out { t, call } => {
-                src.push_str(&format!("{}.{call}()\n", VARS[*t]));
-            }
-            Step::Timeout { t, lit, .. } => {
-                src.push_str(&format!("{}.timeout_ms({lit})\n", VARS[*t]));
-            }
-            Step::Copy { first } => {
-                src.push_str(if *first { "make b get a\n" } else { "b get a\n" });
-            }
+        pieces.push(match s {
+            Step::Arg { t, expr, .. } => format!("{}.arg({expr})\n", VARS[*t]),
+            Step::Env { t, key, expr, .. } => format!("{}.env({}, {expr})\n", VARS[*t], ns_string_expr(key)),
+            Step::Cwd { t, path } => format!("{}.cwd({})\n", VARS[*t], ns_string_expr(path)),
+            Step::StdinText { t, expr, .. } => format!("{}.stdin_text({expr})\n", VARS[*t]),
+            Step::StdinOther { t, call } | Step::Out { t, call } => format!("{}.{call}()\n", VARS[*t]),
+            Step::Timeout { t, lit, .. } => format!("{}.timeout_ms({lit})\n", VARS[*t]),
+            // in the wrapped shapes `b` is declared up front (as a copy of the fresh `a`)
+            Step::Copy { first } => (if *first && !wrapped { "make b get a\n" } else { "b get a\n" }).to_string(),
             Step::Run { t } => {
-                src.push_str(&format!(
-                    "make r{run_no} get {}.run()\nshout(r{run_no}.success())\nshout(r{run_no}.exit_code())\n",
-                    VARS[*t]
-                ));
                 run_no += 1;
+                format!(
+                    "make r{n} get {}.run()\nshout(r{n}.success())\nshout(r{n}.exit_code())\n",
+                    VARS[*t],
+                    n = run_no - 1
+                )
+            }
+        });
+    }
+    let has_b = steps.iter().any(|s| matches!(s, Step::Copy { .. }));
+    let mut src = String::new();
+    match case.shape % 3 {
+        0 => {
+            src.push_str(&format!("make a get command({})\n", ns_string_expr(&program)));
+            for p in &pieces {
+                src.push_str(p);
+            }
+        }
+        shape => {
+            // one step per iteration of a counter loop: the frame is reset between the calls
+            let mut lp = String::from("make stepno get 0\n");
+            lp.push_str(&format!("jasi (stepno small pass {}) start\n", pieces.len()));
+            for (k, p) in pieces.iter().enumerate() {
+                lp.push_str(&format!("if to say (stepno na {k}) start\n{p}end\n"));
+            }
+            lp.push_str("stepno get stepno add 1\nend\n");
+            if shape == 1 {
+                src.push_str(&format!("make a get command({})\n", ns_string_expr(&program)));
+                if has_b {
+                    src.push_str("make b get a\n");
+                }
+                src.push_str(&lp);
+            } else {
+                // ... inside a function that receives the builders as parameters
+                src.push_str(&format!("make a0 get command({})\n", ns_string_expr(&program)));
+                if has_b {
+                    src.push_str("make b0 get a0\n");
+                }
+                src.push_str(if has_b { "do apply(a, b) start\n" } else { "do apply(a) start\n" });
+                src.push_str(&lp);
+                src.push_str("end\n");
+                src.push_str(if has_b { "apply(a0, b0)\n" } else { "apply(a0)\n" });
             }
         }
     }
@@ -1397,6 +1428,11 @@ pub fn check_case(ctx: &mut ShardCtx, case: &Case) -> Outcome {
         if case.ops.iter().any(|o| matches!(o, Op::Arg(Val::Num(_) | Val::Bool(_)) | Op::Env(_, Val::Num(_) | Val::Bool(_)) | Op::StdinText(Val::Num(_) | Val::Bool(_)))) {
             ctx.class("non-string value stringified");
         }
+        match case.shape % 3 {
+            1 => ctx.class("builder calls spread over loop iterations"),
+            2 => ctx.class("builders passed to a function and changed inside its loop"),
+            _ => {}
+        }
         if exp.nontrivial {
             ctx.nontrivial(case.hash());
             if !case.big {
@@ -1543,8 +1579,24 @@ fn case_strategy() -> impl Strategy<Value = Case> {
         prop::bool::weighted(0.94),
         caps_strategy(),
         prop::sample::select(vec![1u32, 1, 1, 2, 5, 10]),
+        prop_oneof![2 => Just(0u8), 1 => Just(1u8), 1 => Just(2u8)],
     )
-        .prop_map(|(prog, ops, allow, caps, poll)| Case { prog, ops, allow, caps, poll, big: false })
+        .prop_map(|(prog, ops, allow, caps, poll, shape)| Case { prog, ops, allow, caps, poll, big: false, shape })
+}
+
+/// Cases whose builder calls are spread over loop iterations (shape 1) or happen on parameters
+/// inside a function's loop (shape 2), under the permissive default configuration: used by C02
+/// (host values must survive frame resets just like strings and arrays).
+pub fn reclaim_case_strategy() -> impl Strategy<Value = Case> {
+    (prop::collection::vec(op(), 1..40), prop_oneof![Just(1u8), Just(2u8)]).prop_map(|(ops, shape)| Case {
+        prog: 0,
+        ops,
+        allow: true,
+        caps: [CapGen::Default; 11],
+        poll: 1,
+        big: false,
+        shape,
+    })
 }
 
 // ------------------------------------------------- defaults boundary stage --
@@ -1558,6 +1610,7 @@ fn default_boundary_cases() -> Vec<Case> {
         caps: [CapGen::Default; 11],
         poll: 1,
         big: true,
+        shape: 0,
     };
     let arg = |n: u32| Op::Arg(Val::T(Txt::Rep(n)));
     let mut v = Vec::new();
